@@ -8,3 +8,13 @@ package graphs
 // functions of the key (assumed; injectivity is NOT assumed).
 //@ func SymbolKey.BaseId pure trusted
 //@ func SymbolKey.Id pure trusted
+
+// NewSymbolKey derives a key from an AST node and a file version (go/ast type switch + Sprintf): assumed to be a
+// deterministic function of both; the key's FileId is the version's string form.
+//@ ufunc declKeyBase(node ast.Node, version *gast.FileVersion) string
+//@ func NewSymbolKey trusted
+//@ ensures implies(node != nil && version != nil, result.BaseId() == declKeyBase(node, version))
+//@ func NewUniverseSymbolKey props C17,C14
+//@ ensures result.Name == typeName && result.IsUniverse && result.IsBuiltIn
+//@ func NewNonUniverseBuiltInSymbolKey props C17,C14
+//@ ensures result.Name == typeName && !result.IsUniverse && result.IsBuiltIn
